@@ -8,6 +8,7 @@ import re
 from fractions import Fraction
 
 from . import poly
+from . import facts as facts_mod
 from .poly import RatFunc, AtomTable
 
 
@@ -956,6 +957,7 @@ class Evaluator:
             self.bind(p, a, env)
             pnames.append(p)
         fr = Frame(body, env, tsubst or {}, depth)
+        facts_mod.note_eval(body)
         v = self.ev(body["body"], fr)
         res = self.finish(fr, v)
         return res, fr
